@@ -23,6 +23,8 @@ pub struct Unit {
     pub budget_s: f64,
     /// timeout for nonlinear branch-feasibility queries (None = the run's solver timeout)
     pub branch_nl_timeout_ms: Option<u64>,
+    /// Some(seed): explore only the path followed by one pseudo-random sample input (see Ctx::concolic)
+    pub concolic: Option<u64>,
 }
 pub trait CallWith<F> { fn call_with(&self, f: F); }
 macro_rules! impl_call_with { ($($t:ident $i:tt),*) => { impl<$($t: Clone,)* Func: Fn($($t),*)> CallWith<Func> for ($($t,)*) { fn call_with(&self, f: Func) { f($(self.$i.clone()),*) } } } }
@@ -43,7 +45,7 @@ macro_rules! unit {
         $crate::run::Unit { id: __id,
             sym: { Box::new(move || $crate::run::CallWith::call_with(&__t1, $f::<$crate::sym::Sym>)) },
             nat: { Box::new(move || $crate::run::CallWith::call_with(&__t2, $f::<f64>)) },
-            path_cap: 20000, panic_is_violation: false, max_decisions: 600, budget_s: 300.0, branch_nl_timeout_ms: None }
+            path_cap: 20000, panic_is_violation: false, max_decisions: 600, budget_s: 300.0, branch_nl_timeout_ms: None, concolic: None }
     }};
 }
 
@@ -181,7 +183,7 @@ pub fn explore_all(units: Vec<Unit>, cfg: &Config) -> Vec<UnitReport> {
         for _ in 0..cfg.threads.max(1) {
             let units = units.clone();
             let sched = sched.clone();
-            s.spawn(move || worker(&units, &sched, cfg));
+            std::thread::Builder::new().stack_size(512 << 20).spawn_scoped(s, move || worker(&units, &sched, cfg)).expect("spawn worker");
         }
     });
     let mut g = sched.0.lock().unwrap();
@@ -213,6 +215,7 @@ fn worker(units: &[Unit], sched: &(Mutex<Sched>, Condvar), cfg: &Config) {
             ctx.max_decisions = unit.max_decisions;
             ctx.solver.tag = unit.id.clone();
             if let Some(t) = unit.branch_nl_timeout_ms { ctx.branch_nl_timeout_ms = t; }
+            ctx.concolic = unit.concolic;
             CTX.with(|c| *c.borrow_mut() = Some(ctx));
             cur = Some(ui);
         }
